@@ -29,7 +29,7 @@ type FuncResult struct {
 }
 
 func newExec(P *Prog, fn *ssa.Function) *Exec {
-	return &Exec{P: P, root: fn, notes: map[string]bool{}, written: map[string]bool{}, revealed: map[string]bool{}, tagFacts: map[int]*Term{}, immutable: map[string][]*Term{},
+	return &Exec{P: P, root: fn, notes: map[string]bool{}, written: map[string]bool{}, localCells: map[string][]*Term{}, revealed: map[string]bool{}, tagFacts: map[int]*Term{}, immutable: map[string][]*Term{},
 		oblCount: map[string]int{}, inlined: map[string]bool{}, usedCts: map[string]bool{}, unchecked: map[string]bool{}, assumes: map[string]bool{}, atomicOps: map[string]bool{}}
 }
 
